@@ -315,8 +315,17 @@ func traceHandler(id int, tr *[]string, params *map[string]string) flamego.Handl
 		// a signature without a built-in fast path: these are the handlers a HandlerWrapper applies to
 		return func(c flamego.Context, _ *http.Request) { body(c) }
 	}
+	if id%6 == 4 {
+		// a named function type that can print itself (String): a handler, wherever it stands in an argument list
+		return c11NamedHandler(body)
+	}
 	return body
 }
+
+// c11NamedHandler: a handler of a named function type with a String method.
+type c11NamedHandler func(flamego.Context)
+
+func (c11NamedHandler) String() string { return "audit" }
 
 // traceWrapper is the k-th HandlerWrapper: it leaves its mark in the trace and runs the handler it was given.
 func traceWrapper(k int, tr *[]string) func(flamego.Handler) flamego.Handler {
